@@ -5060,51 +5060,72 @@ func c19ContentLengthAlwaysValidated(c *Ctx) {
 func c08DurationsSaturate(c *Ctx) {
 	const R = "C08.9"
 	f := c.fn("internal/wire", "TransportParameters", "readNumericTransportParameter")
-	n := 0
-	var val ssa.Value
-	eachInstr(f, func(in ssa.Instruction) {
-		m, ok := in.(*ssa.BinOp)
-		if !ok || m.Op != token.MUL {
-			return
-		}
-		nt := namedOf(m.Type())
-		if nt == nil || nt.Obj().Name() != "Duration" {
-			return
-		}
-		var src ssa.Value
-		for _, pr := range [][2]ssa.Value{{m.X, m.Y}, {m.Y, m.X}} {
-			if _, isC := pr[1].(*ssa.Const); isC {
-				if cv, ok := pr[0].(*ssa.Convert); ok {
-					src = cv.X
-				}
-			}
-		}
-		if src == nil {
-			return
-		}
-		n++
-		val = src
-		// clamped operand: min(val, K)
-		guarded := MinMaxOf("min", Any(), func(v ssa.Value) bool { _, ok := stripConv(v).(*ssa.Const); return ok })(src)
-		for d := m.Block(); d != nil && d.Idom() != nil; d = d.Idom() {
-			id := d.Idom()
-			ifi, ok := id.Instrs[len(id.Instrs)-1].(*ssa.If)
-			if !ok || len(d.Preds) != 1 {
+	root := func(v ssa.Value) ssa.Value {
+		for d := 0; d < 6; d++ {
+			switch x := v.(type) {
+			case *ssa.Convert:
+				v = x.X
 				continue
-			}
-			if b, ok := ifi.Cond.(*ssa.BinOp); ok && isCmp(b.Op) && b.Op != token.EQL && b.Op != token.NEQ {
-				_, cy := b.Y.(*ssa.Const)
-				_, cx := b.X.(*ssa.Const)
-				if (b.X == src && cy) || (b.Y == src && cx) {
-					guarded = true
+			case *ssa.BinOp:
+				if x.Op == token.SHL || x.Op == token.MUL {
+					if _, isC := x.X.(*ssa.Const); isC {
+						v = x.Y
+					} else {
+						v = x.X
+					}
+					continue
 				}
 			}
+			break
 		}
-		c.Check(guarded, R, fmt.Sprintf("saturate:duration multiplication #%d in readNumericTransportParameter is bounded", n), c.P.InstrPos(in),
-			"time.Duration(val)*unit wraps modulo 2^64: a huge max_idle_timeout becomes negative (clamped to 5 s), a huge min_ack_delay becomes a few ns and passes the min_ack_delay > max_ack_delay rejection")
-	})
-	c.Floor(R, "duration multiplications in readNumericTransportParameter", n, 3)
-	_ = val
+		return v
+	}
+	check := func(g *ssa.Function, floor int) {
+		n := 0
+		eachInstr(g, func(in ssa.Instruction) {
+			m, ok := in.(*ssa.BinOp)
+			if !ok || m.Op != token.MUL {
+				return
+			}
+			nt := namedOf(m.Type())
+			if nt == nil || nt.Obj().Name() != "Duration" {
+				return
+			}
+			var src ssa.Value
+			for _, pr := range [][2]ssa.Value{{m.X, m.Y}, {m.Y, m.X}} {
+				if _, isC := pr[1].(*ssa.Const); isC {
+					if cv, ok := pr[0].(*ssa.Convert); ok {
+						src = cv.X
+					}
+				}
+			}
+			if src == nil {
+				return
+			}
+			n++
+			// clamped operand: min(val, K)
+			guarded := MinMaxOf("min", Any(), func(v ssa.Value) bool { _, ok := stripConv(v).(*ssa.Const); return ok })(src)
+			rt := root(src)
+			for d := m.Block(); d != nil && d.Idom() != nil; d = d.Idom() {
+				id := d.Idom()
+				ifi, ok := id.Instrs[len(id.Instrs)-1].(*ssa.If)
+				if !ok || len(d.Preds) != 1 {
+					continue
+				}
+				if b, ok := ifi.Cond.(*ssa.BinOp); ok && isCmp(b.Op) && b.Op != token.EQL && b.Op != token.NEQ {
+					if b.X == rt || b.Y == rt {
+						guarded = true
+					}
+				}
+			}
+			c.Check(guarded, R, fmt.Sprintf("saturate:duration multiplication #%d in %s is bounded", n, g.Name()), c.P.InstrPos(in),
+				"time.Duration(v)*unit (and a preceding shift) wrap modulo 2^64; testing the sign of the product catches only wraps that land in [2^63, 2^64): a huge max_idle_timeout becomes negative (clamped to 5 s), a huge min_ack_delay / ACK delay becomes a few ns")
+		})
+		c.Floor(R, "duration multiplications in "+g.Name(), n, floor)
+	}
+	check(f, 3)
+	check(c.fn("internal/wire", "", "parseAckFrame"), 1)
+	check(c.fn("internal/wire", "", "parseAckFrequencyFrame"), 1)
 	mit := c.fld("internal/wire", "TransportParameters", "MaxIdleTimeout")
 	parsedVarint := func(v ssa.Value) bool {
 		ex, ok := stripConv(v).(*ssa.Extract)
@@ -5122,4 +5143,107 @@ func c08DurationsSaturate(c *Ctx) {
 	c.cut("C08.10", "zero:max_idle_timeout 0 is not turned into the minimum timeout", &Cut{Fn: f, Target: stores, NoInline: true,
 		Edge: OrEdge(EdgeRel(Rel{Op: token.GTR, X: parsedVarint, Y: ConstI(0)}, false), EdgeRel(Rel{Op: token.NEQ, X: parsedVarint, Y: ConstI(0)}, false))},
 		"RFC 9000 §18.2: an explicit 0 means no idle timeout, like omitting the parameter; clamping it to MinRemoteIdleTimeout gives the peer the shortest timeout we accept, and parse → marshal → parse turns 0 into 5 s")
+}
+
+// C20.9: "one reduction per window of packets" rests on comparing packet numbers: OnCongestionEvent cuts the window
+// only if the lost packet number is above largestSentAtLastCutback, which OnPacketSent keeps as "the last packet
+// number sent". Packet numbers are per packet-number space; the comparison means something only if every packet number
+// the controller is given comes from one space. Each call site in the sent-packet handler that hands the controller a
+// packet number (OnPacketSent, OnPacketAcked, OnCongestionEvent) must lie beyond a test that selects one encryption
+// level — or the controller must not compare numbers (RFC 9002 delimits recovery by send time).
+func c20OneNumberSpaceForTheController(c *Ctx) {
+	const R = "C20.9"
+	n := 0
+	for _, m := range []string{"OnPacketSent", "OnPacketAcked", "OnCongestionEvent"} {
+		obj := c.obj(cong, "SendAlgorithm", m)
+		for _, cs := range c.P.CallSites(obj) {
+			if cs.Kind == "value" || cs.Fn.Pkg == nil || cs.Fn.Pkg.Pkg.Name() != "ackhandler" {
+				continue
+			}
+			if _, ok := cs.Instr.(ssa.CallInstruction); !ok || !cs.Instr.(ssa.CallInstruction).Common().IsInvoke() {
+				continue
+			}
+			n++
+			one := false
+			for d := cs.Instr.Block(); d != nil && d.Idom() != nil; d = d.Idom() {
+				id := d.Idom()
+				ifi, ok := id.Instrs[len(id.Instrs)-1].(*ssa.If)
+				if !ok || len(d.Preds) != 1 {
+					continue
+				}
+				if b, ok := ifi.Cond.(*ssa.BinOp); ok && (b.Op == token.EQL || b.Op == token.NEQ) {
+					for _, v := range []ssa.Value{b.X, b.Y} {
+						if nt := namedOf(v.Type()); nt != nil && nt.Obj().Name() == "EncryptionLevel" {
+							if _, isC := v.(*ssa.Const); isC && ((b.Op == token.EQL) == (id.Succs[0] == d)) {
+								one = true
+							}
+						}
+					}
+				}
+			}
+			c.Check(one, R, fmt.Sprintf("space:%s gives the congestion controller packet numbers of one space only (%s)", rootFn(cs.Fn).Name(), m), c.P.InstrPos(cs.Instr),
+				"the controller's once-per-window guard compares the lost packet number with the last packet number sent in ANY space: after Handshake probes (small numbers) every lost 1-RTT packet is above the marker and cuts the window again")
+		}
+	}
+	c.Floor(R, "call sites handing packet numbers to the congestion controller", n, 4)
+}
+
+// C19.13: a malformed trailer section gets the stream error a malformed message gets: in Stream.Read, the failure edge of
+// the trailer parser passes CancelRead and CancelWrite with H3_MESSAGE_ERROR before the error is returned.
+func c19MalformedTrailersResetStream(c *Ctx) {
+	const R = "C19.13"
+	f := c.fn("http3", "Stream", "Read")
+	pt := c.fld("http3", "Stream", "parseTrailer")
+	me := c.konst("http3", "ErrCodeMessageError")
+	var call *ssa.Call
+	eachInstr(f, func(in ssa.Instruction) {
+		if cl, ok := in.(*ssa.Call); ok && cl.Call.StaticCallee() == nil && !cl.Call.IsInvoke() && Load(pt)(cl.Call.Value) {
+			call = cl
+		}
+	})
+	if !c.Check(call != nil, R, "anchor:Stream.Read hands a HEADERS frame after the body to the trailer parser", "-", "call through Stream.parseTrailer") {
+		return
+	}
+	var starts []*ssa.BasicBlock
+	for _, b := range f.Blocks {
+		ifi, ok := b.Instrs[len(b.Instrs)-1].(*ssa.If)
+		if !ok {
+			continue
+		}
+		for s := 0; s < 2; s++ {
+			if EdgeImplies(ifi, s, Rel{Op: token.NEQ, X: func(v ssa.Value) bool { return v == ssa.Value(call) }, Y: IsNil()}, false) {
+				starts = append(starts, b.Succs[s])
+			}
+		}
+	}
+	if !c.Check(len(starts) > 0, R, "shape:the trailer parser's error is tested in Stream.Read", c.P.InstrPos(call), "an `if err != nil` on the parser's result (returning it untested leaves the stream open)") {
+		return
+	}
+	for _, m := range []string{"CancelRead", "CancelWrite"} {
+		m := m
+		cancels := func(in ssa.Instruction) bool {
+			cl, ok := in.(ssa.CallInstruction)
+			if !ok {
+				return false
+			}
+			cc := cl.Common()
+			name := ""
+			if cc.IsInvoke() {
+				name = cc.Method.Name()
+			} else if sc := cc.StaticCallee(); sc != nil {
+				name = sc.Name()
+			}
+			if name != m {
+				return false
+			}
+			for _, a := range cc.Args {
+				if ConstOf(me)(a) {
+					return true
+				}
+			}
+			return false
+		}
+		c.cut(R, "reset:a malformed trailer section is answered with "+m+"(H3_MESSAGE_ERROR)", &Cut{Fn: f, StartBlocks: starts, Target: isReturn, Barrier: cancels, NoInline: true},
+			"RFC 9114 §4.1.2: malformed requests or responses are stream errors of type H3_MESSAGE_ERROR; a handler that drains the body got a clean response although the trailers carried a pseudo-header")
+	}
 }
